@@ -1,6 +1,7 @@
 (* PropdepProofs.v -- the dependency analysis (model of tir/propdep.rs in model/Passes.v) leaves no read unobserved; observer slots *)
 From Coq Require Import Lia.
-From QV Require Import model.Base model.Lang model.Types model.Tir model.Passes.
+From QV Require Import model.Base model.Lang model.Types model.Tir model.Passes proofs.TypingProofs.
+From Coq Require Import Bool.
 Open Scope nat_scope.
 Open Scope list_scope.
 
@@ -241,3 +242,81 @@ Fixpoint covered_b (E : cenv) (deps : list (string * mref)) (lo hi : nat) (known
   end.
 Definition code_covered_b (E : cenv) (c : code) : bool :=
   forallb (fun b => covered_b E (c_sdeps c) 0 (c_nobs c) (repeat None (List.length (c_locals c))) None (b_stmts b)) (c_blocks c).
+
+(* ---- the executable checker decides the coverage predicate (signals taken up to their signature) ---- *)
+(* a signal is identified by its class, name and argument types (what the C++ connect is written from) *)
+Definition same_signal (a b : mref) : Prop :=
+  mr_class a = mr_class b /\ mi_name (mr_info a) = mi_name (mr_info b) /\ mi_args (mr_info a) = mi_args (mr_info b).
+
+Lemma args_eqb_eq : forall x y,
+  (fix go (x y : list tkind) := match x, y with [], [] => true | p :: r, q :: s => tkind_eqb p q && go r s | _, _ => false end) x y = true <-> x = y.
+Proof.
+  induction x as [|p r IH]; destruct y as [|q s]; split; intros H; try reflexivity; try discriminate.
+  - apply andb_prop in H. destruct H as [H1 H2]. apply tkind_eqb_eq in H1. apply IH in H2. subst. reflexivity.
+  - inversion H; subst. apply andb_true_intro. split; [apply tkind_eqb_refl|apply IH; reflexivity].
+Qed.
+
+Lemma mref_eqb_spec a b : mref_eqb a b = true <-> same_signal a b.
+Proof.
+  unfold mref_eqb, minfo_eqb, same_signal. rewrite !andb_true_iff, Nat.eqb_eq, String.eqb_eq, Nat.eqb_eq, args_eqb_eq. split.
+  - intros [H1 [[H2 H3] H4]]. auto.
+  - intros [H1 [H2 H3]]. repeat split; auto. rewrite H3. reflexivity.
+Qed.
+
+Definition dep_in (n : string) (sig : mref) (deps : list (string * mref)) : Prop := exists sig', In (n, sig') deps /\ same_signal sig' sig.
+
+Lemma dep_mem_spec n sig deps : dep_mem n sig deps = true <-> dep_in n sig deps.
+Proof.
+  unfold dep_mem, dep_in. rewrite existsb_exists. split.
+  - intros [[m s'] [Hin H]]. cbn [fst snd] in H. apply andb_prop in H. destruct H as [H1 H2]. apply String.eqb_eq in H1. subst m.
+    exists s'. split; [exact Hin|]. apply mref_eqb_spec. exact H2.
+  - intros [s' [Hin H]]. exists (n, s'). split; [exact Hin|]. cbn [fst snd]. rewrite String.eqb_refl. apply mref_eqb_spec in H. rewrite H. reflexivity.
+Qed.
+
+(* the coverage predicate with signals taken up to their signature *)
+Fixpoint covered_sig (E : cenv) (deps : list (string * mref)) (lo hi : nat) (known : list (option string)) (prev : option tstmt) (l : list tstmt) : Prop :=
+  match l with
+  | [] => True
+  | st :: r =>
+      (match needs E st with
+       | None => True
+       | Some (ONamed x _, sig) => dep_in x sig deps
+       | Some (OLocal v _, sig) => match nth v known None with
+                                   | Some n => dep_in n sig deps
+                                   | None => exists k s', prev = Some (TObserve k v s') /\ same_signal s' sig /\ lo <= k < hi
+                                   end
+       | Some (_, _) => False
+       end)
+      /\ covered_sig E deps lo hi (known_after known st) (Some st) r
+  end.
+
+Lemma same_signal_refl a : same_signal a a.
+Proof. repeat split. Qed.
+
+Lemma covered_covered_sig E deps lo hi : forall l known prev, covered E deps lo hi known prev l -> covered_sig E deps lo hi known prev l.
+Proof.
+  induction l as [|st r IH]; intros known prev; cbn [covered covered_sig]; [auto|]. intros [H1 H2]. split; [|apply IH, H2].
+  destruct (needs E st) as [[a sig]|]; [|exact I]. destruct a as [c|e v|v t|x cls|]; auto.
+  - destruct (nth v known None).
+    + exists sig. split; [exact H1|apply same_signal_refl].
+    + destruct H1 as [k [E1 E2]]. exists k, sig. split; [exact E1|]. split; [apply same_signal_refl|exact E2].
+  - exists sig. split; [exact H1|apply same_signal_refl].
+Qed.
+
+Theorem covered_b_sound E deps lo hi : forall l known prev, covered_b E deps lo hi known prev l = true <-> covered_sig E deps lo hi known prev l.
+Proof.
+  induction l as [|st r IH]; intros known prev; cbn [covered_b covered_sig]; [split; auto|].
+  rewrite andb_true_iff, IH. apply and_iff_compat_r.
+  destruct (needs E st) as [[a sig]|]; [|split; auto].
+  destruct a as [c|e v|v t|x cls|]; try (split; [discriminate|contradiction]).
+  - destruct (nth v known None) as [n|]; [apply dep_mem_spec|].
+    destruct prev as [[l0 r0|r0|k l' s']|]; try (split; [discriminate|intros (k0 & s0 & X & _); discriminate X]).
+    rewrite !andb_true_iff, Nat.eqb_eq, mref_eqb_spec, Nat.leb_le, Nat.ltb_lt. split.
+    + intros [[[H1 H2] H3] H4]. subst l'. exists k, s'. split; [reflexivity|]. split; [exact H2|]. split; [exact H3|exact H4].
+    + intros (k0 & s0 & X & H2 & H3). inversion X; subst. destruct H3 as [H3 H4]. split; [split; [split; [reflexivity|exact H2]|exact H3]|exact H4].
+  - apply dep_mem_spec.
+Qed.
+
+Theorem code_covered_b_sound E c : code_covered_b E c = true <->
+  Forall (fun b => covered_sig E (c_sdeps c) 0 (c_nobs c) (repeat None (List.length (c_locals c))) None (b_stmts b)) (c_blocks c).
+Proof. unfold code_covered_b. rewrite forallb_forall, Forall_forall. split; intros H b Hb; apply covered_b_sound, H, Hb. Qed.
